@@ -439,7 +439,8 @@ class Assembler:
                 except OSError:
                     raise UnitSyntax('include file %s not found' % inc)
                 for l2 in self._with_includes(inc_lines, depth + 1):
-                    out.append(re.sub(r'^(\s*)//@ extract(\??) ', r'\1//@ extract\2 !decl ', l2))
+                    # (idempotent: a block that already is a declaration through a nested include-external stays one)
+                    out.append(re.sub(r'^(\s*)//@ extract(\??) (?!!decl )', r'\1//@ extract\2 !decl ', l2))
                 continue
             if not m:
                 out.append(ln)
